@@ -857,6 +857,9 @@ class Exec:
     def call_isinstance(self, node, st):
         v = self.ev(node.args[0], st)
         tn = ast.unparse(node.args[1])
+        if isinstance(node.args[1], ast.Name) and self.mod is not None and node.args[1].id in getattr(self.mod, 'type_tuples', {}) \
+                and node.args[1].id not in st.env:
+            tn = ','.join(self.mod.type_tuples[node.args[1].id])
         k = v.kind
         names = set(tn.replace('(', '').replace(')', '').replace(' ', '').split(','))
         def has(*xs):
@@ -1021,6 +1024,10 @@ class Exec:
                         if a is not None or dflt is None:
                             return False
                     elif a.kind in ('str', 'int') and pkind in ('str', 'int') and a.kind != pkind:
+                        return False
+                    elif a.kind in ('E', 'ME') and pkind in ('E', 'ME') and a.kind != pkind:
+                        return False
+                    elif a.kind in (('seq', 'E'), ('seq', 'ME')) and pkind in (('seq', 'E'), ('seq', 'ME')) and a.kind != pkind:
                         return False
                 return True
             if not fits(c):
@@ -1936,6 +1943,7 @@ class Exec:
             if tag in ('break', 'continue'):
                 raise OutOfSubset('break/continue outside loop')
             val = payload if tag == 'return' else const(None)
+            self.returning_paths = getattr(self, 'returning_paths', 0) + 1
             self.check_post(s2, val, oldst)
         return self.obls
 
